@@ -618,6 +618,23 @@ class HandleEnv:
         if not hasattr(ip, '_henv_base'):
             ip._henv_base = list(ip.overrides)
         ip.overrides[:] = ip._henv_base
+
+        def stat_rec(c, *a):
+            # statistics calls are recorded (who, which): C18's reference is evaluated over this trace
+            who, what = c.m.group(1), c.m.group(2)
+            tgt = None
+            if who == 'ServerStats' and a:
+                try:
+                    sv = deref(c.ip, a[0])
+                    tgt = getattr(sv, 'data', None)
+                except Exception:      # noqa: BLE001
+                    tgt = None
+            env.events.append(('stat', who, what, tgt))
+            t = (c.dest_ty or '').strip()
+            if t in ('()', ''):
+                return unit()
+            return c.ip.fresh_of_type(t, 'stat')
+        ip.overrides.append((re.compile(r'^(?:stats::\w+::)?(ClientStats|ServerStats)::(register|idle|waiting|active|disconnect|transaction|query|checkout_error|checkout_success)$'), stat_rec))
         install_stats_noops(ip)
 
         def get_pool(c, dbp, up):
@@ -785,6 +802,8 @@ class HandleEnv:
             for b in self.backends:
                 if b.held:
                     self.put_back(b.cell)
+        if self.outcome == ('done', 'Err'):
+            self.events.append(('stat', 'ClientStats', 'disconnect', 'entrypoint'))     # client_entrypoint: `if result.is_err() { client.stats.disconnect() }`
         if self.outcome[0] in ('done', 'panic'):
             # client_entrypoint drops the Client when handle() is over (also on unwind): <Client as Drop>::drop
             dr = [f for n, f in prog.funcs.items() if re.search(r'client::<impl at [^>]*>::drop$', n)]
@@ -888,7 +907,7 @@ def collect_native(res, session=0):
                 client_read=None)
 
 
-def judge(data, script, dec, expect_forward=None, cache_on=False, denied=None, expect_incomplete=False, allow_pooler_replies=False, idle_rule=False):
+def judge(data, script, dec, expect_forward=None, cache_on=False, denied=None, expect_incomplete=False, allow_pooler_replies=False, idle_rule=False, stats_rule=False):
     """The reference model, evaluated on an observation record.  `script`: the complete client messages (lists of BV) the
     client sent before it stopped; `expect_forward`: what the backends must receive for them (default: completed
     batches).  Returns [(property, key, text)]."""
@@ -1047,6 +1066,44 @@ def judge(data, script, dec, expect_forward=None, cache_on=False, denied=None, e
     if xi < len(expected) and outcome[0] != 'panic' and not any(e[0] == 'statement_timeout' for e in data['events']):
         # (after a statement timeout the pooler answers with its own error instead of the late reply: documented difference)
         V.append(('C03', 'H/reply-not-delivered', 'reply %s to the client\'s own request never reached the client (%d of %d delivered)' % (show(expected[xi][:40]), xi, len(expected))))
+    # ---- statistics (C18, the per-session part): the client's reported state follows what it really does, it is unregistered once it
+    # is gone however it left, and its transaction / query totals equal what was executed on the servers for it
+    stats = [e for e in data['events'] if e[0] in ('stat', 'client_read', 'checkout', 'putback')]
+    if stats_rule and any(e[0] == 'stat' for e in stats):
+        cstate = None
+        ntx = nq = 0
+        ndisc = 0
+        for e in stats:
+            if e[0] == 'stat' and e[1] == 'ClientStats':
+                if e[2] in ('idle', 'waiting', 'active'):
+                    cstate = e[2]
+                elif e[2] == 'register':
+                    cstate = 'idle'
+                elif e[2] == 'disconnect':
+                    ndisc += 1
+                elif e[2] == 'transaction':
+                    ntx += 1
+                elif e[2] == 'query':
+                    nq += 1
+            elif e[0] == 'client_read' and e[1] >= 1:
+                want = 'active' if e[2] else 'idle'
+                if cstate != want:
+                    V.append(('C18', 'H/client-state', 'while it %s the client is reported as %s (before reading message %d)' %
+                              ('holds a server' if e[2] else 'holds no server and waits for the client', cstate, e[1])))
+                    break
+        if outcome[0] in ('done', 'panic') and ndisc == 0:
+            V.append(('C18', 'H/client-never-unregistered/' + outcome[0], 'the session is over (%s) but the client was never removed from the statistics' % (outcome,)))
+        units = [r for r in data['reqs'] if r.get('origin') == 'client' and code_of(r['bytes']) in 'QS']
+        if outcome[0] == 'done' and not any(code_of(m) in 'dcf' for m in script) and not any(e[0] in ('statement_timeout',) for e in data['events']):
+            want_q = len(units)
+            want_tx = sum(1 for r in units if r.get('status_after') is not None and dec(r['status_after'].z() == ord('I')))
+            if nq != want_q:
+                V.append(('C18', 'H/query-total', 'the client\'s query total grew by %d for %d requests executed on the servers' % (nq, want_q)))
+            # (a Sync the pooler answers itself -- nothing buffered, or everything cached -- may or may not be counted as a transaction:
+            # nothing ran on a server, but the client did complete a protocol-level transaction; both readings are accepted)
+            own = sum(1 for m in script if code_of(m) == 'S') - sum(1 for r in units if code_of(r['bytes']) == 'S')
+            if not (want_tx <= ntx <= want_tx + max(0, own)):
+                V.append(('C18', 'H/transaction-total', 'the client\'s transaction total grew by %d for %d transactions completed on the servers' % (ntx, want_tx)))
     return V
 
 
